@@ -18,8 +18,9 @@ import pokerkit  # noqa: E402
 import pokerkit.state as pk_state  # noqa: E402
 import pokerkit.utilities as pk_util  # noqa: E402
 
-assert os.path.abspath(pokerkit.__file__).startswith(REPO + os.sep), (
-    pokerkit.__file__, REPO)
+if not os.path.abspath(pokerkit.__file__).startswith(REPO + os.sep):
+    raise RuntimeError(f'pokerkit imported from {pokerkit.__file__}, '
+                       f'expected {REPO}')
 
 # --------------------------------------------------------------------------
 # deterministic keyed shuffle
